@@ -54,6 +54,21 @@ claimed = {
          "Changes on a branch whose rule needs 2-3 of 4 persons: authorizations by trusted/untrusted keys, code-review approvals signed by the app key or another key naming approvers and dismissed approvers, app trust toggled by policy edits, approvals recorded before or after the entry and for exact or stale changes, plus misfiled and signature-lifted attestations of both kinds written straight into the attestations tree. Verdicts are compared with the model (each principal once across entry signature, authorization, code-review identity; only the preceding attestation state; only statements bound to exactly that change).",
          "SimStore; GitHub API replaced by injected attestations; acceptance is demanded only when no attestation was planted by a non-client.",
          "DESIGN.md §6 C09"),
+ "C19": ("exploration",
+         "deterministic simulation: prediction by the real VerifyMergeable, then exact re-execution of the same history once per candidate recorder (a fork of the same state) and full verification of the recorded merge",
+         "Seeded branch rules (threshold 1-3, optional global threshold), feature histories ahead of or diverged from the branch, and prior approvals (authorizations and code-review approvals, possibly stale) for the predicted merge; for six candidate recorders (three trusted persons incl. ones already counted, an untrusted person, an outsider key, unsigned) the fast-forward or the pre-built merge commit is recorded and verified, and the outcome is compared with the three-way contract of the prediction.",
+         "SimStore's GetMergeTree is a per-path three-way merge stub; file rules are not generated here.",
+         "DESIGN.md §6 C19"),
+ "C12": ("exploration",
+         "deterministic simulation: seeded sequences of stage/apply/discard by signers inside and outside the roles with crash leftovers and ref/log tampering written into the store; ref/log state machine plus writer-verifier link",
+         "Valid successors (root rotation over several staged steps, thresholds, versions, rules) and successors produced by non-root / non-rule-file keys are staged, applied and discarded in seeded order, with policy/staging refs moved without entries, entries without refs, and non-descendant staging as starting states. A successful Apply must have moved policy to the staged tip (a descendant), appended its entry, and published a state that a fresh LoadCurrentState and full verification accept; Apply must refuse on any ref/entry disagreement and must not move the policy ref when it fails; Discard must restore staging.",
+         "SimStore; the API-level loadRootMetadata refusal is represented by what non-root signers can produce (metadata without the required quorum).",
+         "DESIGN.md §6 C12"),
+ "C18": ("exploration",
+         "deterministic simulation on real git: upstream and downstream repositories on tmpfs evolving in seeded step order, repeated propagation, ground truth by NUL-delimited plumbing",
+         "Seeded upstream/downstream trees (nested, odd and prefix-related names), directives with and without upstream path and trailing slash (grid walked by run index), upstream recording new states and revoking its latest entry between repeated propagations, unrelated downstream commits; after every call the downstream tree and log are read with ls-tree -z / git log and compared with the model (exact subtree, bystanders byte-identical, propagation entry naming upstream location and entry, no commit or entry when content already matches).",
+         "Real internal/propagation, gitinterface and git 2.39; local repositories only; this machine spawns ~100 git processes per second in total, so runs are few and stratified.",
+         "DESIGN.md §6 C18"),
 }
 
 not_applicable = {
